@@ -51,10 +51,10 @@ pub fn classify(m: &RecipeM, f: &Features, st: &mut Stats) {
                                 st.class_if(q.blank_sep, "unit-without-%");
                             }
                         }
-                        TokM::Timer(_) => {
+                        TokM::Timer(t) => {
                             comps += 1;
                             with_qty = true;
-                            st.class("timer")
+                            st.class(if t.qty.is_some() { "timer" } else { "timer-without-duration" })
                         }
                         TokM::Inline { .. } => st.class("inline-quantity"),
                         TokM::Escaped(_) => st.class("escaped-char"),
@@ -83,7 +83,8 @@ pub fn nontrivial(m: &RecipeM, f: &Features) -> bool {
 }
 
 pub fn check_roundtrip(raw: &RawRecipe, st: &mut Stats) -> Verdict {
-    let m = build(raw, false);
+    // the canonical parser does not require timers to have a duration
+    let m = build_with(raw, false, true);
     let (src, feats) = print_recipe(&m, &raw.tape);
     let ext = m.level == Level::Ext;
     let parser: &CooklangParser = if ext { &EXTENDED } else { &CANONICAL };
